@@ -40,7 +40,11 @@ def sh_step(st, c):
          ite(is_b, ESC,
          ite(blank, START,
          ite(AND(eq(c, HASH), eq(q, START)), COMMENT, WORD)))))))
+    # negative codes other than BREAK are *markers* for text substituted by the build tool (the value of a path
+    # variable such as $(srcdir)): literal inside quotes; unquoted they would be re-read by the shell
+    is_marker = (c < 0) if isinstance(c, int) else (c < 0)
     bad = OR(eq(q, COMMENT),
+             AND(unq, is_marker),
              AND(unq, NOT(is_q), NOT(is_b), NOT(blank), active),
              AND(eq(q, ESC), OR(eq(c, 10), eq(c, 13))))
     ok2 = ite(bad, 0, ok)
